@@ -4,10 +4,74 @@ import json, os
 VERIF = os.path.dirname(os.path.dirname(os.path.abspath(__file__)))
 
 CHECKS = {
+ "C01": dict(engine="kani", design="DESIGN.md#c01",
+   technique="bounded symbolic model checking of the compiled code (Kani/CBMC + CaDiCaL): arbitrary lazy state + one step, invariant re-checked on the node array (induction), free-monoid item",
+   text="Kani proof harnesses over the real Segtree code instantiated at the free-monoid item (non-commutative merge, Add|Assign modifiers): a state with an arbitrary pending modifier on every node, then every modify(l,r)/set(p)/ask(l,r) with symbolic modifier/value; the representation invariant and the abstraction to the model array are re-established on the raw node array (hook), which closes the induction over histories; constructors are the base case; built-in items and the nested combinator against plain folds. n <= 5 (quick) / 8 (thorough).",
+   note="Trusted: Kani/CBMC/CaDiCaL; parametricity of the container in the item type (meta-argument); hook Segtree::verif_nodes (read-only)."),
+ "C02": dict(engine="kani", design="DESIGN.md#c02",
+   technique="bounded symbolic model checking of the compiled code (Kani/CBMC + CaDiCaL): arbitrary lazy state, all start positions, monotone predicate family; the predicate asserts the aggregate it is shown",
+   text="From an arbitrary lazy state (pending modifier on every node) the forward/backward boundary search is run for every start and a symbolic predicate from a monotone family; the closure itself asserts that the aggregate shown equals the model slice letter by letter, the result is compared with a linear scan, and the state invariant is re-checked. n <= 6 / 8; SumAdd threshold searches in addition.",
+   note="Trusted: Kani/CBMC/CaDiCaL. Non-monotone predicates and items whose Default is not the identity are outside the API contract."),
+ "C03": dict(engine="kani", design="DESIGN.md#c03",
+   technique="bounded symbolic model checking of the compiled code (Kani/CBMC + CaDiCaL) on an exhaustively enumerated skeleton (tree shape x weak order of priorities x position) with symbolic letters and pending modifiers",
+   text="Every binary-tree shape with <= 3 (quick) / 4 (thorough) nodes and every weak order of priorities consistent with the heap condition is a concrete pre-state built through the public node fields; letters and a pending non-commuting modifier on every node are symbolic. split_at/rotate, merge of every skeleton pair, split_by, insert_at, remove_at, first/last/collect/size and the split-modify-merge idiom are compared with the packed model sequence (aggregates, sizes, returned values, heap order).",
+   note="Trusted: Kani/CBMC/CaDiCaL; completeness of the skeleton enumeration for the stated size; results depend on priorities only through pairwise comparisons (guarded syntactically)."),
+ "C04": dict(engine="kani", design="DESIGN.md#c04",
+   technique="bounded symbolic model checking of the compiled code (Kani/CBMC + CaDiCaL) of the generic FFT code instantiated at an exact field GF(7) in place of floats",
+   text="The real generic FFT<F> is instantiated at the exact field GF(7) (Complex<F> then has genuine 8th roots of unity); multiply = convolution for all coefficient vectors at transform sizes 2/4, size 8 with one symbolic operand, call histories 2->8->2 and 8->4 on one object, additive *_into contract, fft/pointwise/fft_inv = multiply. Decides indexing, packing, conjugate unpacking, scaling, accumulation and table growth; the floating-point rounding envelope is NOT decided.",
+   note="Trusted: Kani/CBMC/CaDiCaL; parametricity of FFT<F> in F. The f64/f32 rounding half of the property is outside the claim."),
+ "C05": dict(engine="kani", design="DESIGN.md#c05",
+   technique="bounded symbolic model checking of the compiled code (Kani/CBMC + CaDiCaL): inductive step from an arbitrary forest satisfying the depth invariant (hooked raw constructor)",
+   text="From an arbitrary parent/size array satisfying J (forest, sz[root] = cardinality, depth <= log2 size) one un/par/check/size with arbitrary arguments: return value, resulting partition, representatives, and J again; reset (grow/shrink/zero), clone and new as base cases. n <= 4/5 (quick), 6 (thorough).",
+   note="Trusted: Kani/CBMC/CaDiCaL; hooks DSU::verif_raw / verif_from_raw; J is the invariant (inductive: base + step are both checked)."),
+ "C06": dict(engine="kani", design="DESIGN.md#c06",
+   technique="bounded symbolic model checking of the compiled code (Kani/CBMC + CaDiCaL), one instantiation per modulus; all operands symbolic",
+   text="Per modulus (small primes/composites, powers of two, both competition primes, 2^31-2, 2^31-1): new(v) for every i64, + - neg * and assigning forms against division-free/shared-term specifications, inverse and division for every unit (windows at large moduli), pow against the naive product and against a Fermat-reduced reference for every 64-bit exponent at small primes.",
+   note="Trusted: Kani/CBMC/CaDiCaL. 'All moduli' is claimed only per listed modulus here; Readable/Display are outside."),
+ "C07": dict(engine="kani", design="DESIGN.md#c07",
+   technique="bounded symbolic model checking of the compiled code (Kani/CBMC + CaDiCaL): symbolic fractions, cross-multiplication in a wider type",
+   text="For T in {i8,i16,i64} (+ i32,i128 thorough) and all fractions with bounded components and denominators of either sign: every operator form returns the exact value in lowest terms with a positive denominator, cmp is the numeric order and consistent with ==, equal values hash identically, floor/ceil are exact.",
+   note="Trusted: Kani/CBMC/CaDiCaL. Components <= 7 (i8) / 31 / 15 (i128); larger magnitudes outside."),
+ "C08": dict(engine="mirsym", design="DESIGN.md#c08",
+   technique="path-wise symbolic execution of the nightly MIR of rlib_io with z3: byte contents, chunk schedule and Interrupted faults are symbolic/forked inputs",
+   text="mirsym executes the MIR of Reader path by path: input bytes symbolic over an alphabet, the read stub forks over every chunk length and over Interrupted; per path the solver decides equality with a reference parse, equality with the whole-input schedule (schedule independence), and panic freedom. Counterexamples are replayed against the native build through a scripted Read adaptor.",
+   note="Trusted: rustc's MIR dump as semantics; mirsym interpreter + ~45 std models (validated per run against the native build on concrete inputs); z3."),
+ "C09": dict(engine="mirsym", design="DESIGN.md#c09",
+   technique="path-wise symbolic execution of the MIR of rlib_io::Writer (and Reader for the round trip) with z3/cvc5; values parametrised by decimal digits",
+   text="mirsym executes the MIR of Writer from constructed pre-states end = 65536-k (k <= 45) with a recording sink: the sink equals the prefix followed by the reference renderings for every piece sequence explored, for both MIR variants (debug flush-per-write, release buffered); every value of all 12 integer types is rendered (one path per sign and digit count) and read back through the MIR of Reader.",
+   note="Trusted: MIR dump; mirsym + models (validated per run against native dev and release builds); decimal-structure lemmas applied by the interpreter (instances discharged by z3/cvc5 where they terminate); partial-write/Interrupted retry is write_all's contract."),
+ "C11": dict(engine="kani", design="DESIGN.md#c11",
+   technique="bounded symbolic model checking of the compiled code (Kani/CBMC + CaDiCaL): symbolic operands, Bezout witness re-checked in a wider type",
+   text="gcd/lcm/egcd/crt at signed and unsigned types with symbolic operands within magnitude bounds: non-negativity, divisibility, greatest via a Bezout pair from the real egcd, lcm*gcd=|ab|, a*x+b*y=c exactly and None iff gcd does not divide c, CRT solution in [0,lcm) satisfying both congruences and None iff incompatible.",
+   note="Trusted: Kani/CBMC/CaDiCaL. Magnitudes <= 31/15, moduli <= 12 (quick); full i8/u8 in thorough."),
+ "C12": dict(engine="kani", design="DESIGN.md#c12",
+   technique="bounded symbolic model checking of the compiled code (Kani/CBMC + CaDiCaL): arbitrary words, symbolic operation and observer indices",
+   text="For N in {1,2,3} words with arbitrary contents: point operations, binary operators and assigning forms, complement, count, equality, constructors observed at a symbolic index; the iterator's first three yields on arbitrary words and whole runs for popcount <= 4.",
+   note="Trusted: Kani/CBMC/CaDiCaL. N > 3 and the 0/1 string rendering are outside."),
+ "C14": dict(engine="kani", design="DESIGN.md#c14",
+   technique="bounded symbolic model checking of the compiled code (Kani/CBMC + CaDiCaL): symbolic bounds x raw output; existential claims as cover goals over all 2^64 seeds",
+   text="Every integer type and range form: draw inside the range for every raw output, every value reachable (Skolem witness); f64 half-open range for all finite bounds; shuffle is a permutation for every seed, every arrangement of 3 and 4 elements reachable by some seed, small-range draws not periodic (cover goals that must be satisfiable).",
+   note="Trusted: Kani/CBMC/CaDiCaL incl. CBMC's IEEE double semantics. Near-equal frequency and seed determinism (two multiplier chains: SAT-hard) are not decided."),
+ "C15": dict(engine="kani", design="DESIGN.md#c15",
+   technique="bounded symbolic model checking of the compiled code (Kani/CBMC + CaDiCaL): masks with bounded popcount at symbolic positions, all widths; symbolic sequences",
+   text="Sub/supermask iteration at all 12 integer types for masks with popcount <= 4 at arbitrary positions: first, last, strict unsigned order, containment and count; next_permutation as the lexicographic successor with minimality over a symbolic competitor (length <= 6, 3 letters); iter_permutations; grid neighbours for all n,m <= 2^62.",
+   note="Trusted: Kani/CBMC/CaDiCaL."),
+ "C16": dict(engine="kani", design="DESIGN.md#c16",
+   technique="bounded symbolic model checking of the compiled code (Kani/CBMC + CaDiCaL) on enumerated skeletons (heap order of every output) + existential cover goals over all generator states",
+   text="Heap order (parent <= child on every edge) is asserted for every output tree of every C03 instance; the priority source is checked through existential goals over all 2^64 generator states (all order patterns of three consecutive priorities reachable, top bit and both halves vary) and the first node priorities of a process. The logarithmic height bound on 10^6-element histories is NOT decided.",
+   note="Trusted: Kani/CBMC/CaDiCaL. Detects broken heap maintenance and degenerate priority sources, not insufficient randomness."),
+ "C18": dict(engine="x87sym", design="DESIGN.md#c18",
+   technique="symbolic interpretation of the x87 asm! templates (parsed from the source) over SMT-LIB FloatingPoint(15,64) with z3; all pairs of f64 bit patterns",
+   text="x87sym parses every asm! template and the Rust glue of rlib_f80 from the current source, interprets them on a symbolic register stack and proves, for all pairs of f64 bit patterns, that each arithmetic operator equals the correctly rounded IEEE result on the widened operands (operand order, signed zeros), conversions are exact/correctly rounded, and <, <=, >, >=, partial_cmp, ==, !=, min, max, abs follow the IEEE order.",
+   note="Trusted: the instruction-semantics table (about 20 x87 instructions); z3's FloatingPoint theory (validated per run against the real FPU on a boundary set); default x87 control word."),
  "C19": dict(engine="kani", design="DESIGN.md#c19",
    technique="bounded symbolic model checking of the compiled code (Kani/CBMC + CaDiCaL): symbolic shapes, indices and elements",
-   text="Every obligation is a Kani proof harness over the real Tensor code with symbolic extents (rank 1-4, extents <= 3-5), symbolic index pairs and symbolic elements; CBMC decides it for all values inside those bounds (unwinding assertions on). Covers: row-major bijection, write/read, iteration order, constructor layout, rejection of out-of-range indices per dimension, constructor rejections, equality iff shape and elements agree.",
-   note="Trusted: Kani's MIR->goto translation, CBMC, CaDiCaL. Element type u8. Pointer checks off (safe Rust). Text IO round trip not covered here."),
+   text="Every obligation is a Kani proof harness over the real Tensor code with symbolic extents (rank 1-4, extents <= 3-5), symbolic index pairs and symbolic elements: row-major bijection, write/read, iteration order, constructor layout, rejection of out-of-range indices per dimension, constructor rejections, equality iff shape and elements agree.",
+   note="Trusted: Kani/CBMC/CaDiCaL. Element type u8. Text IO round trip not covered here."),
+ "C20": dict(engine="kani", design="DESIGN.md#c20",
+   technique="bounded symbolic model checking of the compiled code (Kani/CBMC + CaDiCaL) on generated harnesses, one per macro invocation shape; rustc decides that each shape expands",
+   text="One generated harness per rec_lambda! shape (capture pattern over {&,&mut}^k in every order, 1..4 arguments, return type or none, both call syntaxes: 124 quick / 496 thorough): the closure's result and the final state of every mutable capture equal a hand-written recursive fn from the same template, for symbolic arguments and captured values, recursion depth <= 4.",
+   note="Trusted: Kani/CBMC/CaDiCaL; rustc for expansion."),
 }
 NOT_APPLICABLE = [
  {"property_id": "C10", "reason": "IEEE-754 double sqrt/division chains with 1e-7/1e-9 tolerance assertions: CBMC float bit-blasting timed out on the smallest kernel (line-line on a 7x7 lattice, 280 s) and modelling doubles as reals is unsound; no solver-based engine in the image decides it"},
@@ -39,7 +103,7 @@ def main():
     m = {
         "version": 1,
         "setup_cmd": "./setup.sh",
-        "hooks": {"guard": "cargo feature `verif` (rlib_segtree, rlib_dsu) and `verif_small_buf` (rlib_io), off by default",
+        "hooks": {"guard": "cargo feature `verif` (rlib_segtree, rlib_dsu), off by default",
                   "enable": "harness crates under /verif/harness depend on /repo/rlib/* by path with features=[\"verif\"]",
                   "baseline_off_cmd": "cd /repo && cargo test --workspace --no-fail-fast --offline",
                   "source_commits": HOOK_COMMITS, "add_only": True},
@@ -57,6 +121,6 @@ def main():
     }
     json.dump(m, open(os.path.join(VERIF, "MANIFEST.json"), "w"), indent=1)
 
-HOOK_COMMITS = []
+HOOK_COMMITS = ["a2b0636", "0e44c93"]
 if __name__ == "__main__":
     main()
